@@ -150,7 +150,7 @@ func (p *peer) closing(ev *event) bool {
 	if ev.Exp != nil {
 		return ev.Exp.Closed && ev.C != "IDLE" && !strings.HasPrefix(ev.C, "AUTHENTICATE")
 	}
-	return ev.V != "bad" && (ev.C == "LOGOUT" || ev.C == "STARTTLS-PIPED" || ev.C == "XUNKNOWN" && p.last == "notauth")
+	return ev.V != "bad" && (ev.C == "LOGOUT" || ev.C == "STARTTLS-PIPED" || ev.C == "STARTTLS-GARBAGE" || ev.C == "XUNKNOWN" && p.last == "notauth")
 }
 
 // canPipeStartTLS tells whether the server is going to accept STARTTLS now, from what was configured
@@ -221,7 +221,7 @@ func cmdText(c, v string) string {
 		return c
 	}
 	switch c {
-	case "STARTTLS-PIPED":
+	case "STARTTLS-PIPED", "STARTTLS-GARBAGE":
 		return "STARTTLS"
 	case "LOGIN":
 		return "LOGIN u p"
@@ -274,7 +274,8 @@ func (p *peer) run1(ev *event) (*obs, error) {
 	tag := p.raw.NextTag()
 	line := tag + " " + cmdText(ev.C, ev.V) + "\r\n"
 	piped := p.closing(ev)
-	if piped {
+	garbage := ev.C == "STARTTLS-GARBAGE"
+	if piped && !garbage {
 		line += trailer
 	}
 	if err := p.raw.Send(line); err != nil {
@@ -309,6 +310,12 @@ func (p *peer) run1(ev *event) (*obs, error) {
 				o.Tagged = "OK"
 			} else {
 				o.Tagged = "NOTOK"
+			}
+			if piped && garbage && o.Tagged == "OK" {
+				// no handshake: octets that are no TLS record, then plaintext commands - the upgrade has failed, the
+				// connection is expected to end without a word and without executing anything
+				p.raw.Send("\x16\x03 this is no TLS record\r\n" + trailer)
+				continue
 			}
 			if piped && ev.C == "STARTTLS-PIPED" && o.Tagged == "OK" {
 				// the transport now belongs to TLS: what the server does with the plaintext that was
@@ -631,9 +638,9 @@ func cmdRandom(path string, seed int64, traces, steps int) {
 				ev.C = "NOOP"
 			}
 			if ev.C == "STARTTLS" && p.canPipeStartTLS() && rng.Intn(3) == 0 {
-				ev.C = "STARTTLS-PIPED"
+				ev.C = []string{"STARTTLS-PIPED", "STARTTLS-GARBAGE"}[rng.Intn(2)]
 			}
-			if rng.Intn(6) == 0 && ev.C != "XUNKNOWN" && ev.C != "STARTTLS-PIPED" {
+			if rng.Intn(6) == 0 && ev.C != "XUNKNOWN" && ev.C != "STARTTLS-PIPED" && ev.C != "STARTTLS-GARBAGE" {
 				ev.V = "bad"
 			}
 			if rng.Intn(4) == 0 {
